@@ -1099,6 +1099,14 @@ func (e *Encoder) instr(in ssa.Instruction, st *State, pc string) {
 		e.rangeNext(in, st, pc)
 	case *ssa.If, *ssa.Jump:
 	case *ssa.Return:
+		if e.fc != nil && len(e.fc.Sites) > 0 {
+			// site return#k: the k-th return statement in source order; its results are res0, res1, ...
+			extra := map[string]Val{}
+			for i, r := range in.Results {
+				extra[fmt.Sprintf("res%d", i)] = e.val(r)
+			}
+			e.runSites(fmt.Sprintf("return#%d", e.ordinal("site return")), st, pc, extra)
+		}
 		e.ret(in, st, pc)
 	case *ssa.Panic:
 		e.panicObl("panic", "explicit panic", pc, "false")
